@@ -33,8 +33,7 @@ func (t *c12cTicker) Stop()                  {}
 
 const c12cSentinel = "\x00verif-c12-sentinel"
 
-// c12cGen: up to 6 tasks per section (a Drain with more than drainWorkers + cleanWorkers failing tasks pending
-// stalls the run loop), every retry stage: a task that fails k times runs at seconds 1, 6, 66, 366, 3966 after
+// c12cGen: every retry stage: a task that fails k times runs at seconds 1, 6, 66, 366, 3966 after
 // AddCleanTask and is given up after the 1 h stage.
 func c12cGen(r *verifh.Rng) []verifh.Section {
 	var secs []verifh.Section
@@ -67,6 +66,20 @@ func c12cGen(r *verifh.Rng) []verifh.Section {
 			}
 			ops = append(ops, fmt.Sprintf("add %d %s", id, oc))
 			id++
+		}
+		if i%5 == 2 {
+			// shutdown with more failing tasks pending than drainWorkers + cleanWorkers: every clean re-arms from inside
+			m := r.Pick(14, 15, 20, 40)
+			for j := 0; j < m; j++ {
+				ops = append(ops, fmt.Sprintf("add %d %s", id, r.PickS("f", "ff", "ff", "fs", "fff")))
+				id++
+			}
+			ntasks = id + 2
+			if r.Bool() {
+				tick(1)
+			}
+			ops = append(ops, "drain")
+			tick(r.Pick(1, 5, 6))
 		}
 		for j := r.Range(3, 14); j > 0; j-- {
 			switch x := r.Intn(10); {
@@ -205,6 +218,12 @@ func TestVerifC12Cleaner(t *testing.T) {
 			// their re-arming SetTimer has been handled by the loop; repeat until nothing new happens
 			for round, last := 0, -1; round < 8; round++ {
 				if !do(func() { _ = tw.RemoveTimer(c12cSentinel) }) {
+					if op[0] == "drain" {
+						mu.Lock()
+						n := len(fired)
+						mu.Unlock()
+						return fmt.Sprintf("STALLED drain: run loop blocked after %d clean callbacks started", n)
+					}
 					return "TIMEOUT-loop"
 				}
 				// runTasks' goroutine, the drain workers and the taskRunner's goroutines have exited
